@@ -14,7 +14,7 @@ Definition alloc_result (s : st) (b : block) (n : Z) : st :=
         (if x + n <? t then fr_add f (bsize b - n) (x + n) else f) t (pos s) (off s) (size s)
   else mkS (arr (set_at s x (Some (mkB x (bsize b) true)))) f (top s) (pos s) (off s) (size s).
 
-Lemma alloc_exec s b n c : Pre s -> at_ s (bstart b) = Some b -> 1 <= n <= bsize b ->
+Lemma alloc_exec s b n c : Pre s -> at_ s (bstart b) = Some b -> 0 <= n <= bsize b ->
   find_available s n c = Ok (Some b) -> alloc s n c = Ok (alloc_result s b n, Some (bstart b)).
 Proof.
   intros P Hb Hn Hfa. pose proof (P_cell s P _ _ Hb) as Hc. pose proof (at_range _ _ _ Hb) as Hr.
@@ -36,7 +36,8 @@ Variables (s : st) (x m n : Z).
 Hypothesis P : Pre s.
 Hypothesis C : Coal s (fun _ _ => False).
 Hypothesis Hb : at_ s x = Some (mkB x m false).
-Hypothesis Hn : 1 <= n < m.
+Hypothesis Hn0 : 0 <= n < m.
+Hypothesis Hn1 : 1 <= n.
 Let b := mkB x m false.
 Let s' := alloc_result s b n.
 Let lo := mkB (x + n) (m - n) false.
@@ -44,6 +45,7 @@ Let new := mkB x n true.
 
 Lemma at_alloc_lt a : at_ s' a = if a =? x + n then Some lo else if a =? x then Some new else at_ s a.
 Proof.
+  clear Hn1 C.
   pose proof (P_cell s P _ _ Hb) as Hc. pose proof (at_range _ _ _ Hb) as Hr. simpl in Hc.
   unfold s', alloc_result. simpl. destruct (Z.ltb_spec n m); [|lia].
   rewrite (at_ext _ (set_at (set_at s x (Some new)) (x + n) (Some lo))) by reflexivity.
@@ -55,14 +57,15 @@ Ltac dat a := destruct (Z.eqb_spec a (x + n)) as [?|?]; [|destruct (Z.eqb_spec a
 Ltac inv H := inversion H; subst; clear H.
 
 Lemma top_alloc_lt : top s' = Z.max (top s) (x + n).
-Proof. unfold s', alloc_result. simpl. destruct (Z.ltb_spec n m); [reflexivity|lia]. Qed.
+Proof. clear Hn1 C. unfold s', alloc_result. simpl. destruct (Z.ltb_spec n m); [reflexivity|lia]. Qed.
 
 Lemma freed_alloc_lt : freed s' =
   if x + n <? Z.max (top s) (x + n) then fr_add (fr_remove (freed s) m x) (m - n) (x + n) else fr_remove (freed s) m x.
-Proof. unfold s', alloc_result. simpl. destruct (Z.ltb_spec n m); [reflexivity|lia]. Qed.
+Proof. clear Hn1 C. unfold s', alloc_result. simpl. destruct (Z.ltb_spec n m); [reflexivity|lia]. Qed.
 
 Lemma consts_alloc_lt : pos s' = pos s /\ off s' = off s /\ size s' = size s /\ alen (arr s') = size s.
 Proof.
+  clear Hn1 C.
   unfold s', alloc_result. simpl. destruct (Z.ltb_spec n m); [|lia]. simpl.
   rewrite !alen_setz. repeat split; auto. apply P_len; auto.
 Qed.
@@ -70,6 +73,7 @@ Qed.
 (* where the chosen block sits relative to top *)
 Lemma b_vs_top : (x = top s /\ x + m = hi s) \/ (x + m <= top s).
 Proof.
+  clear Hn1 Hn0 C.
   destruct (P_top s P) as (bt & Ht & Hend).
   pose proof (P_cell s P _ _ Hb) as Hc. pose proof (P_cell s P _ _ Ht) as Hct. simpl in Hc.
   destruct (two_blocks s _ _ _ _ P Hb Ht) as [[? ?]|[[? ?]|[? ?]]]; simpl in *; subst; simpl in *; try lia.
@@ -250,4 +254,77 @@ Proof.
   - right. exists b. split; [auto|]. split; [auto|]. split; [auto|]. split.
     + apply alloc_exec; auto; lia.
     + apply alloc_result_inv; try lia; auto. split; auto.
+Qed.
+
+(* ---- a state with the same cells, top and (up to the top block) the same _freed ----------- *)
+Lemma AInv_ext s s' : AInv s ->
+  (forall a, at_ s' a = at_ s a) -> top s' = top s -> pos s' = pos s -> off s' = off s -> size s' = size s ->
+  alen (arr s') = size s -> keys_nodup (freed s') ->
+  (forall k a, fmem (freed s') k a -> fmem (freed s) k a) ->
+  (forall k a, fmem (freed s) k a -> a < top s -> fmem (freed s') k a) ->
+  AInv s'.
+Proof.
+  intros [P C] Hat Kt Kp Ko Ks Kl Hk Hsub Hsup.
+  assert (Kh : hi s' = hi s) by (unfold hi; rewrite Ko, Ks; auto).
+  split.
+  - constructor.
+    + rewrite Kl, Ks. auto.
+    + rewrite Kp, Ko, Kh. apply P_pos; auto.
+    + intros a b Hb. rewrite Hat in Hb. rewrite Kh, Kp. apply (P_cell s P); auto.
+    + intros a b j Hb Hj. rewrite Hat in Hb. rewrite Hat. apply (P_gap s P a b j); auto.
+    + intros a b Hb Hlt. rewrite Hat in Hb. rewrite Kh in Hlt. rewrite Hat. apply (P_next s P a b); auto.
+    + rewrite Kp, Hat. apply P_first; auto.
+    + rewrite Kt, Kh. destruct (P_top s P) as (bt & Ht & He). exists bt. rewrite Hat. auto.
+    + exact Hk.
+    + intros k a Hm. rewrite Hat. apply (P_sound s P). auto.
+    + intros a b Hb Hu Hlt. rewrite Hat in Hb. rewrite Kt in Hlt. apply Hsup; auto. apply (P_compl s P); auto.
+  - intros a b b' Hb Hu Hb' Hu'. rewrite Hat in Hb, Hb'. apply (C a b b'); auto.
+Qed.
+
+(* alloc(0): hands out the start of some free block (or None); cells, top and live allocations are unchanged *)
+Lemma alloc_zero_result_inv s x m : AInv s -> at_ s x = Some (mkB x m false) ->
+  AInv (alloc_result s (mkB x m false) 0) /\ (forall a, at_ (alloc_result s (mkB x m false) 0) a = at_ s a).
+Proof.
+  intros A Hb. pose proof A as [P C]. pose proof (P_cell s P _ _ Hb) as Hc. simpl in Hc.
+  assert (Hn0 : 0 <= 0 < m) by lia.
+  assert (Hat : forall a, at_ (alloc_result s (mkB x m false) 0) a = at_ s a).
+  { intros a. rewrite (at_alloc_lt s x m 0 P Hb Hn0).
+    destruct (Z.eqb_spec a (x + 0)) as [E|E].
+    - replace a with x by lia. rewrite Hb. f_equal. f_equal; lia.
+    - destruct (Z.eqb_spec a x); [lia|reflexivity]. }
+  split; auto.
+  destruct (consts_alloc_lt s x m 0 P Hn0) as (Kp & Ko & Ks & Kl).
+  pose proof (le_top s x _ P Hb) as Hle.
+  apply (AInv_ext s); auto.
+  - rewrite (top_alloc_lt s x m 0 Hn0). lia.
+  - rewrite (freed_alloc_lt s x m 0 Hn0). destruct (_ <? _); [apply nodup_add|]; apply nodup_remove, P_keys; auto.
+  - intros k a. rewrite (freed_alloc_lt s x m 0 Hn0).
+    destruct (Z.ltb_spec (x + 0) (Z.max (top s) (x + 0))) as [Hlt|Hge].
+    + rewrite fmem_add, fmem_remove by (apply P_keys; auto).
+      intros [[-> ->]|[H _]]; auto. replace (m - 0) with m by lia. replace (x + 0) with x by lia.
+      change m with (bsize (mkB x m false)). apply (P_compl s P); auto. lia.
+    + rewrite fmem_remove by (apply P_keys; auto). tauto.
+  - intros k a Hm Hlt. rewrite (freed_alloc_lt s x m 0 Hn0).
+    destruct (Z.ltb_spec (x + 0) (Z.max (top s) (x + 0))) as [Hlt2|Hge].
+    + rewrite fmem_add, fmem_remove by (apply P_keys; auto).
+      destruct (Z.eq_dec a x) as [->|Hne].
+      * left. pose proof (P_sound s P _ _ Hm) as Ha. rewrite Hb in Ha. inversion Ha. lia.
+      * right. split; auto. intros [_ ?]; lia.
+    + rewrite fmem_remove by (apply P_keys; auto). split; auto. intros [_ ->]. lia.
+Qed.
+
+Lemma alloc_zero_spec s c : AInv s ->
+  exists s' r, alloc s 0 c = Ok (s', r) /\ AInv s' /\ (forall a, at_ s' a = at_ s a) /\
+    pos s' = pos s /\ off s' = off s /\ size s' = size s /\
+    match r with Some a => exists b, at_ s a = Some b /\ bused b = false | None => s' = s end.
+Proof.
+  intros A. pose proof A as [P C].
+  destruct (find_available_spec s 0 c P) as [[Hfa Hnf]|(b & Hfa & Hb & Hu & Hle)].
+  - exists s, None. unfold alloc. rewrite Hfa. simpl. split; [reflexivity|]. split; [exact A|]. split; [auto|]. auto.
+  - pose proof (P_cell s P _ _ Hb) as Hc. destruct b as [x m u]. simpl in *. subst u.
+    destruct (alloc_zero_result_inv s x m A Hb) as (A' & Hat).
+    exists (alloc_result s (mkB x m false) 0), (Some x).
+    split; [apply (alloc_exec s (mkB x m false) 0 c); auto; simpl; lia|].
+    split; [auto|]. split; [auto|].
+    unfold alloc_result. simpl. destruct (0 <? m); simpl; repeat split; eauto.
 Qed.
